@@ -31,11 +31,7 @@ Fixpoint nodup_names (l : list str) : bool :=
 Fixpoint wf_ty (t : ty) : bool :=
   match t with
   | TStruct fs _ => nodup_names (field_names (ptrify_fields fs)) && wf_fields fs
-  | TPtr (TStruct fs n) =>
-      nodup_names (field_names (ptrify_fields fs)) && wf_fields fs &&
-      (* the pointerified struct type differs from the original one (always
-         true for named struct types); see DESIGN C01, residue *)
-      negb (ty_eqb (TStruct fs n) (TStruct (ptrify_fields fs) []))
+  | TPtr (TStruct fs n) => nodup_names (field_names (ptrify_fields fs)) && wf_fields fs
   | _ => true
   end
 with wf_fields (fs : fields) : bool :=
